@@ -30,6 +30,8 @@ edges taken leave X as the only possible value (variant-set dataflow `lib_hs.Var
             leftover buffer
   READ-N    Common::read_commands returns Ok only through the `received == n_commands` test and
             pushes exactly one command per increment
+  WIRE      keyword tables: Command::from_str / AuthMechanism::from_str map exactly the specification's
+            keywords to their variants, and Display / as_str write each variant with its own keyword
   PANIC     R-PANIC over the client handshake modules (client, common, command, auth_mechanism)
 
 Not decided: transport behaviour, hex/uuid crates, the bus side of Hello (C14/C12 own receive_message);
@@ -113,6 +115,19 @@ def pointee(body, op):
     return hs.canon(body, [l, list(op[1][1]) + ["*"]])
 
 
+def deep_pointee(body, op):
+    """the non-reference place behind a reference operand (`&T`, `&&T`, ...)"""
+    p = pointee(body, op)
+    for _ in range(3):
+        if p is None or p[1]:
+            break
+        ty = body.locals[p[0]][0]
+        if not ty.startswith("&"):
+            break
+        p = hs.canon(body, [p[0], ["*"]])
+    return p
+
+
 def read_key(ctx, rule, name, body, vf, reader):
     """canonical key of the single Command value matched on in `body`; it must derive from the result of the
     read call `reader` (read_command / read_commands)"""
@@ -140,7 +155,7 @@ def read_key(ctx, rule, name, body, vf, reader):
 # =========================================================================================== AUTH
 def rule_auth(ctx, f, roots):
     body = code(ctx, f, roots["authenticate"], hs.has_call("read_command"), "calls read_command")
-    vf = hs.VarFacts(f, body)
+    vf = hs.vfacts(f, body)
     key, rc, br = read_key(ctx, "AUTH", "authenticate", body, vf, "read_command")
     if key is None:
         return
@@ -201,7 +216,7 @@ def rule_auth(ctx, f, roots):
 # =========================================================================================== SET-GUID
 def rule_set_guid(ctx, f, roots):
     body = roots["set_guid"]
-    vf = hs.VarFacts(f, body)
+    vf = hs.vfacts(f, body)
     # the Option<OwnedGuid> matched on is Client.server_guid
     opt_keys = {}
     for b, t in mir.switches(body):
@@ -221,7 +236,7 @@ def rule_set_guid(ctx, f, roots):
             continue
         sides = set()
         for a in c.args:
-            p = pointee(body, a)
+            p = deep_pointee(body, a)
             if p is None:
                 continue
             if p[0] == 2 and not [x for x in p[1] if x != "*"]:
@@ -316,7 +331,7 @@ def rule_guid_ctor(ctx, f):
             if root in copies:
                 ctx.ob("GUID-CTOR", key, True, copies[root], where)
                 continue
-            vf = hs.VarFacts(f, b)
+            vf = hs.vfacts(f, b)
             st = vf.state_at_term(bi) or {}
             ok = False
             for c in mir.calls(b):
@@ -329,7 +344,7 @@ def rule_guid_ctor(ctx, f):
     ctx.floor("GUID-CTOR", "constructions of Guid / OwnedGuid", n, 6)
     # Command::Ok in from_str
     fs = ctx.one(f.find(name="from_str", adt=CMD, trait="core::str::traits::FromStr"), "<Command as FromStr>::from_str")
-    vf = hs.VarFacts(f, fs)
+    vf = hs.vfacts(f, fs)
     oks = [(bi, rv, ln) for bi, i, pl, rv, ln in mir.assignments(fs) if rv[0] == "agg" and rv[1] == "adt" and rv[2] == CMD and rv[3] == "Ok"]
     ctx.floor("GUID-CTOR", "Command::Ok built in Command::from_str", len(oks), 1)
     for bi, rv, ln in oks:
@@ -378,7 +393,7 @@ def rule_fd_secondary(ctx, f, roots):
                    "send_secondary_commands reads no reply and does not touch the fd capability", roots[name].where)
             continue
         body = ctx.one(cands, "code body of %s (calls %s)" % (short(roots[name].id), reader))
-        vf = hs.VarFacts(f, body)
+        vf = hs.vfacts(f, body)
         key, rc, br = read_key(ctx, "SECONDARY", name, body, vf, reader)
         if key is None:
             continue
@@ -405,8 +420,6 @@ def rule_fd_secondary(ctx, f, roots):
         for v in [x["name"] for x in f.adts[CMD]["variants"]]:
             if v in ("Ok", "AgreeUnixFD", "Error"):
                 continue
-            if v == "Ok" and reader == "read_command":
-                pass
             within = vf.blocks_where(key, v)
             seen = vf.reach(heads, within=within)
             # the head blocks themselves may be `next`-free; only blocks after the switch count
@@ -452,7 +465,7 @@ def rule_fd_secondary(ctx, f, roots):
 def rule_perform_handoff(ctx, f, roots):
     perf = ctx.one(f.find(name="perform", adt=CLIENT, trait=HS + "Handshake"), "<Client as Handshake>::perform")
     body = code(ctx, f, perf, hs.has_call("authenticate"), "calls authenticate")
-    vf = hs.VarFacts(f, body)
+    vf = hs.vfacts(f, body)
     aggs = [(b, i, rv, ln) for b, i, pl, rv, ln in mir.assignments(body) if rv[0] == "agg" and rv[1] == "adt" and rv[2] == AUTHD]
     ctx.floor("PERFORM", "construction of Authenticated in client perform", len(aggs), 1)
     for name in ("authenticate", "send_secondary_commands"):
@@ -524,7 +537,6 @@ def rule_perform_handoff(ctx, f, roots):
     # ---- HANDOFF
     ic = ctx.one(f.find(name="into_components", adt=COMMON, trait=""), "Common::into_components")
     order = ["socket", "recv_buffer", "received_fds", "cap_unix_fd", "mechanism"]
-    tuples = [(rv, ln) for kind, b, rv in hs.returns(ic) if kind == "other" for ln in [0]]
     rv0 = [rv for bi, i, pl, rv, ln in mir.assignments(ic) if pl[0] == mir.RET and not pl[1]]
     good = len(rv0) == 1 and rv0[0][0] == "agg" and rv0[0][1] == "tuple" and len(rv0[0][4]) == len(order)
     if good:
@@ -613,6 +625,7 @@ def check_config(ctx, f):
     rule_fd_secondary(ctx, f, roots)
     rule_perform_handoff(ctx, f, roots)
     hs.rule_read_n(ctx, f)
+    hs.rule_wire(ctx, f)
     table = dict(hs.COMMON_PANIC_OK)
     table.update(CLIENT_PANIC_OK)
     n = hs.panic_audit(ctx, f, PANIC_SCOPE, table)
